@@ -657,6 +657,14 @@ func (x *Exec) evalCall(env *SpecEnv, e *spec.Call) SVal {
 		return SVal{T: smt.Eq(v.T, nilOf(v.T.Sort))}
 	case "allocated":
 		return SVal{T: smt.Select(x.entryAlloc(), arg(0).T)}
+	case "pow2":
+		// pow2(n) for 0 <= n <= 64 (0 otherwise)
+		n := arg(0).T
+		r := smt.IntC(0)
+		for k := 64; k >= 0; k-- {
+			r = smt.Ite(smt.Eq(n, smt.IntC(int64(k))), smt.IntB(pow2(k)), r)
+		}
+		return SVal{T: r}
 	case "spawned":
 		// spawned(f): how many `go f(...)` statements this activation has executed (ghost counter kept by the executor)
 		name := e.Args[0].String()
